@@ -177,5 +177,274 @@ Definition ing_case (id code o1 o2 o3 : int) : list Z :=
       row id (ing_model_digits s) (strip_last 5 0 obs) obs (shape_admissible s)
   end.
 
+(* ------------------------------------------------------------------ CRD codes *)
+
+Definition obit (b : bool) : nat := if b then 1 else 0.
+Definition optbool_digit (o : option bool) : nat :=
+  match o with None => 0 | Some false => 1 | Some true => 2 end.
+Definition parse_optbool (d : nat) : option (option bool) :=
+  match d with 0 => Some None | 1 => Some (Some false) | 2 => Some (Some true) | _ => None end.
+
+Definition act_digit (a : act_sh) : nat :=
+  match a with
+  | ActNil => 0 | ActEmpty => 1 | ActPass => 2 | ActRedirect => 3 | ActReturn => 4 | ActProxy => 5
+  | ActProxyHdr => 6 | ActProxyHdrPass => 7 | ActTwo => 8
+  end.
+Definition parse_act (d : nat) : option act_sh := nth_error all_act_sh d.
+Definition act2_digit (a : act2_sh) : nat := match a with A2Nil => 0 | A2Pass => 1 | A2Return => 2 end.
+Definition parse_act2 (d : nat) : option act2_sh := nth_error all_act2_sh d.
+Definition ms_digit (m : msplits_sh) : nat := match m with MS0 => 0 | MS2 => 1 | MS2Nil => 2 end.
+
+(* route: a s sa sb m mc ma ms e er ed r *)
+Definition route_digits (r : route_sh) : list nat :=
+  [act_digit (rs_action r)] ++
+  match rs_splits r with Sp0 => [0; 0; 0] | Sp1 => [1; 0; 0] | Sp2 a b => [2; act2_digit a; act2_digit b] end ++
+  match rs_matches r with Mt0 => [0; 0; 0; 0] | Mt1 c a s => [1; obit c; obit a; ms_digit s] end ++
+  match rs_errpages r with Ep0 => [0; 0; 0] | Ep1 a b => [1; obit a; obit b] end ++
+  [obit (rs_route r)].
+
+Definition parse_route (ds : list nat) : option route_sh :=
+  match ds with
+  | [a; s; sa; sb; m; mc; ma; ms; e; er; ed; r] =>
+      let os := match s with
+                | 0 => Some Sp0 | 1 => Some Sp1
+                | 2 => match parse_act2 sa, parse_act2 sb with Some x, Some y => Some (Sp2 x y) | _, _ => None end
+                | _ => None end in
+      let om := match m with
+                | 0 => Some Mt0
+                | 1 => match parse_bool mc, parse_bool ma, nth_error all_msplits_sh ms with
+                       | Some x, Some y, Some z => Some (Mt1 x y z) | _, _, _ => None end
+                | _ => None end in
+      let oe := match e with
+                | 0 => Some Ep0
+                | 1 => match parse_bool er, parse_bool ed with Some x, Some y => Some (Ep1 x y) | _, _ => None end
+                | _ => None end in
+      match parse_act a, os, om, oe, parse_bool r with
+      | Some a', Some s', Some m', Some e', Some r' =>
+          Some {| rs_action := a'; rs_splits := s'; rs_matches := m'; rs_errpages := e'; rs_route := r' |}
+      | _, _, _, _, _ => None
+      end
+  | _ => None
+  end.
+
+Definition up_digit (u : up_sh) : nat :=
+  match u with
+  | UpBare => 0 | UpHealth false => 1 | UpHealth true => 2 | UpCookie => 3 | UpQueue => 4 | UpBuffers => 5
+  | UpBackup => 6 | UpBackupNameOnly => 7 | UpBackupPortOnly => 8 | UpInts => 9
+  end.
+Definition parse_up (d : nat) : option up_sh := nth_error all_up_sh d.
+
+Definition zeros (n : nat) : list nat := repeat 0 n.
+
+(* VirtualServer: k payload(12); k: 0 bare, 1 route, 2 tls (t s r c l), 3 upstream (u) *)
+Definition vs_digits (s : vs_shape) : list nat :=
+  match s with
+  | VsBare => 0 :: zeros 12
+  | VsRoute r => 1 :: route_digits r
+  | VsTls Tl0 l => [2; 0; 0; 0; 0; obit l] ++ zeros 7
+  | VsTls (Tl1 sec r c) l => [2; 1; obit sec; optbool_digit r; obit c; obit l] ++ zeros 7
+  | VsUp u => [3; up_digit u] ++ zeros 11
+  end.
+Definition vs_code (s : vs_shape) : int := code_of (vs_digits s).
+
+Definition vs_of_code (c : int) : option vs_shape :=
+  match rev (dec_digits 14 c) with
+  | 1 :: k :: rest =>
+      let r := match k, rest with
+               | 0, _ => Some VsBare
+               | 1, _ => option_map VsRoute (parse_route rest)
+               | 2, t :: sec :: rd :: cm :: l :: _ =>
+                   match t, parse_bool sec, parse_optbool rd, parse_bool cm, parse_bool l with
+                   | 0, _, _, _, Some l' => Some (VsTls Tl0 l')
+                   | 1, Some a, Some b, Some c', Some l' => Some (VsTls (Tl1 a b c') l')
+                   | _, _, _, _, _ => None
+                   end
+               | 3, u :: _ => option_map VsUp (parse_up u)
+               | _, _ => None
+               end in
+      match r with
+      | Some sh => if Uint63.eqb (vs_code sh) c then Some sh else None
+      | None => None
+      end
+  | _ => None
+  end.
+
+Definition vsr_digits (s : vsr_shape) : list nat :=
+  match s with
+  | VrBare => 0 :: zeros 12
+  | VrRoute r => 1 :: route_digits r
+  | VrUp u => [3; up_digit u] ++ zeros 11
+  end.
+Definition vsr_code (s : vsr_shape) : int := code_of (vsr_digits s).
+
+Definition vsr_of_code (c : int) : option vsr_shape :=
+  match rev (dec_digits 14 c) with
+  | 1 :: k :: rest =>
+      let r := match k, rest with
+               | 0, _ => Some VrBare
+               | 1, _ => option_map VrRoute (parse_route rest)
+               | 3, u :: _ => option_map VrUp (parse_up u)
+               | _, _ => None
+               end in
+      match r with
+      | Some sh => if Uint63.eqb (vsr_code sh) c then Some sh else None
+      | None => None
+      end
+  | _ => None
+  end.
+
+(* TransportServer: l h t u p s a *)
+Definition ts_digits (s : ts_shape) : list nat :=
+  [match tsh_listener s with TLTcp => 0 | TLUdp => 1 | TLPassthrough => 2 end;
+   obit (tsh_host s); optbool_digit (tsh_tls s);
+   match tsh_up s with TU0 => 0 | TU1 h => 1 + optbool_digit h end;
+   optbool_digit (tsh_uparams s); obit (tsh_sparams s); optbool_digit (tsh_action s)].
+Definition ts_code (s : ts_shape) : int := code_of (ts_digits s).
+
+Definition ts_of_code (c : int) : option ts_shape :=
+  match rev (dec_digits 8 c) with
+  | [1; l; h; t; u; p; s; a] =>
+      let ou := match u with 0 => Some TU0 | S u' => option_map TU1 (parse_optbool u') end in
+      match nth_error all_ts_listener l, parse_bool h, parse_optbool t, ou, parse_optbool p, parse_bool s, parse_optbool a with
+      | Some l', Some h', Some t', Some u', Some p', Some s', Some a' =>
+          let sh := {| tsh_listener := l'; tsh_host := h'; tsh_tls := t'; tsh_up := u'; tsh_uparams := p';
+                       tsh_sparams := s'; tsh_action := a' |} in
+          if Uint63.eqb (ts_code sh) c then Some sh else None
+      | _, _, _, _, _, _, _ => None
+      end
+  | _ => None
+  end.
+
+(* Policy: n kind x y *)
+Definition polkind_digits (k : polkind_sh) : list nat :=
+  match k with
+  | KAccess a d => [0; obit a; obit d]
+  | KRate (Rl p c) => [1; obit p; optbool_digit c]
+  | KJwt => [2; 0; 0]
+  | KBasic => [3; 0; 0]
+  | KIngressMTLS d => [4; obit d; 0]
+  | KEgressMTLS d => [5; obit d; 0]
+  | KOidc l => [6; obit l; 0]
+  | KApiKey Ak0 => [7; 0; 0]
+  | KApiKey (Ak1 h q) => [7; 1; 2 * obit h + obit q]
+  | KWaf (Wf l ls) => [8; obit l; optbool_digit ls]
+  end.
+Definition pol_digits (s : pol_shape) : list nat :=
+  match s with Po0 => [0; 0; 0; 0] | Po1 k => 1 :: polkind_digits k | Po2 k => 2 :: polkind_digits k end.
+Definition pol_code (s : pol_shape) : int := code_of (pol_digits s).
+
+Definition parse_polkind (k x y : nat) : option polkind_sh :=
+  match k with
+  | 0 => match parse_bool x, parse_bool y with Some a, Some d => Some (KAccess a d) | _, _ => None end
+  | 1 => match parse_bool x, parse_optbool y with Some p, Some c => Some (KRate (Rl p c)) | _, _ => None end
+  | 2 => Some KJwt
+  | 3 => Some KBasic
+  | 4 => option_map KIngressMTLS (parse_bool x)
+  | 5 => option_map KEgressMTLS (parse_bool x)
+  | 6 => option_map KOidc (parse_bool x)
+  | 7 => match x with
+         | 0 => Some (KApiKey Ak0)
+         | 1 => Some (KApiKey (Ak1 (Nat.leb 2 y) (Nat.odd y)))
+         | _ => None end
+  | 8 => match parse_bool x, parse_optbool y with Some l, Some ls => Some (KWaf (Wf l ls)) | _, _ => None end
+  | _ => None
+  end.
+
+Definition pol_of_code (c : int) : option pol_shape :=
+  match rev (dec_digits 5 c) with
+  | [1; n; k; x; y] =>
+      let r := match n with
+               | 0 => Some Po0
+               | 1 => option_map Po1 (parse_polkind k x y)
+               | 2 => option_map Po2 (parse_polkind k x y)
+               | _ => None end in
+      match r with
+      | Some sh => if Uint63.eqb (pol_code sh) c then Some sh else None
+      | None => None
+      end
+  | _ => None
+  end.
+
+Definition gc_digit (g : gc_shape) : nat :=
+  match g with Gc0 => 0 | Gc1 => 1 | Gc1Bad => 2 | Gc2Dup => 3 | Gc2 => 4 end.
+Definition gc_code (g : gc_shape) : int := code_of [gc_digit g].
+Definition gc_of_code (c : int) : option gc_shape :=
+  match rev (dec_digits 2 c) with
+  | [1; d] => nth_error all_gc_shapes d
+  | _ => None
+  end.
+
+(* --- model digits *)
+
+Definition crd_digits (o : crd_obs) : list nat :=
+  [odigit (c_validate o); odigit (c_store o); odigit (c_extend o); odigit (c_delete o)].
+
+(* VirtualServer: (plus, certmgr) in the order of all_iflags, then all_vctx *)
+Definition vs_model_digits (s : vs_shape) : list nat :=
+  flat_map (fun fl => flat_map (fun c => crd_digits (vs_observe (if_plus fl) (if_certmgr fl) c (vs_of s)))
+                               all_vctx) all_iflags.
+(* VirtualServerRoute: plus, then all_rctx *)
+Definition vsr_model_digits (s : vsr_shape) : list nat :=
+  flat_map (fun plus => flat_map (fun c => crd_digits (vsr_observe plus c (vsr_of s))) all_rctx) all_bool.
+(* TransportServer: tlsPassthrough, then all_tctx *)
+Definition ts_model_digits (s : ts_shape) : list nat :=
+  flat_map (fun tp => flat_map (fun c => crd_digits (ts_observe tp c (ts_of s))) all_tctx) all_bool.
+(* Policy: plus, appProtect: validate, extend *)
+Definition pol_model_digits (s : pol_shape) : list nat :=
+  flat_map (fun plus => flat_map (fun ap =>
+    let o := pol_observe plus ap (policy_of s) in [odigit (po_validate o); odigit (po_extend o)]) all_bool) all_bool.
+(* GlobalConfiguration: two prior states *)
+Definition gc_model_digits (g : gc_shape) : list nat :=
+  crd_digits (gc_observe g) ++ crd_digits (gc_observe g).
+
+(* all CRD shapes are admitted by the schemas (checked by the harness); the harness reports one
+   extra S-only digit (the worker's sync function) per group *)
+Definition vs_case (id code o1 o2 o3 : int) : list Z :=
+  match vs_of_code code with
+  | None => bad_row id
+  | Some s => let obs := unpack 60 o1 o2 o3 in row id (vs_model_digits s) (strip_last 5 0 obs) obs true
+  end.
+Definition vsr_case (id code o1 o2 o3 : int) : list Z :=
+  match vsr_of_code code with
+  | None => bad_row id
+  | Some s => let obs := unpack 20 o1 o2 o3 in row id (vsr_model_digits s) (strip_last 5 0 obs) obs true
+  end.
+Definition ts_case (id code o1 o2 o3 : int) : list Z :=
+  match ts_of_code code with
+  | None => bad_row id
+  | Some s => let obs := unpack 20 o1 o2 o3 in row id (ts_model_digits s) (strip_last 5 0 obs) obs true
+  end.
+Definition pol_case (id code o1 o2 o3 : int) : list Z :=
+  match pol_of_code code with
+  | None => bad_row id
+  | Some s => let obs := unpack 12 o1 o2 o3 in row id (pol_model_digits s) (strip_last 3 0 obs) obs true
+  end.
+Definition gc_case (id code o1 o2 o3 : int) : list Z :=
+  match gc_of_code code with
+  | None => bad_row id
+  | Some s => let obs := unpack 10 o1 o2 o3 in row id (gc_model_digits s) (strip_last 5 0 obs) obs true
+  end.
+
+(* computed obligation: every shape of every enumeration decodes back from its code to a
+   shape with the same digits (the decoders are canonical: they re-encode and compare) *)
+Definition ing_code_roundtrip (s : ing_shape) : bool :=
+  match ing_of_code (ing_code s) with
+  | Some s' => nats_eqb (ing_digits s) (ing_digits s')
+  | None => false
+  end.
+
+Definition rt {A} (of_code : int -> option A) (code : A -> int) (digits : A -> list nat) (s : A) : bool :=
+  match of_code (code s) with Some s' => nats_eqb (digits s) (digits s') | None => false end.
+
+Definition codes_roundtrip : bool :=
+  forallb ing_code_roundtrip all_ing_shapes &&
+  forallb (rt vs_of_code vs_code vs_digits) all_vs_shapes &&
+  forallb (rt vsr_of_code vsr_code vsr_digits) all_vsr_shapes &&
+  forallb (rt ts_of_code ts_code ts_digits) all_ts_shapes &&
+  forallb (rt pol_of_code pol_code pol_digits) all_pol_shapes &&
+  forallb (rt gc_of_code gc_code (fun g => [gc_digit g])) all_gc_shapes.
+
 (* sizes of the enumerations, in the order ing, vs, vsr, ts, pol, gc *)
-Definition shape_counts : list nat := [List.length all_ing_shapes; 0; 0; 0; 0; 0].
+Definition shape_counts : list nat :=
+  [List.length all_ing_shapes; List.length all_vs_shapes; List.length all_vsr_shapes;
+   List.length all_ts_shapes; List.length all_pol_shapes; List.length all_gc_shapes].
